@@ -437,6 +437,9 @@ func randFilterOver(rng interface{ Intn(int) int }, inv []mon.LintInfo, hostile 
 		o.IncludeNames = pick(2)
 		o.ExcludeNames = pick(1)
 	}
+	if r, ok := rng.(*rand.Rand); ok && len(o.IncludeNames) == 0 && len(o.ExcludeNames) == 0 && r.Intn(2) == 0 {
+		o.NameFilter = randPattern(r) // grown from names of the FULL inventory: also matches names this registry does not hold
+	}
 	if hostile {
 		// a name known to the global registry but not to this filtered one must be unknown here
 		o.IncludeNames = append(o.IncludeNames, Inv[rng.Intn(len(Inv))].Name)
@@ -492,6 +495,11 @@ func c08Solo(c *mon.Ctx) {
 		{"e_verif_c08_cert_house", corpus.Cert, lint.LintSource("Internal_Policy"), regC},
 		{"e_verif_c08_crl_partner", corpus.CRL, lint.LintSource("Partner_Policy"), regR},
 		{"e_verif_c08_ocsp_unknown", corpus.OCSP, lint.UnknownLintSource, regO},
+		// names that CONTAIN each other, across kinds: a pattern anchored at both ends selects one of them, an
+		// unanchored literal all of them
+		{"e_verif_c08_nest", corpus.Cert, lint.Community, regC},
+		{"e_verif_c08_nest_strict", corpus.CRL, lint.Community, regR},
+		{"w_e_verif_c08_nest", corpus.OCSP, lint.Community, regO},
 	}
 	for si, st := range steps {
 		m := md(st.name, st.src)
@@ -522,6 +530,13 @@ func c08Solo(c *mon.Ctx) {
 			{ExcludeSources: lint.SourceList{lint.CABFBaselineRequirements}},
 			{NameFilter: regexp.MustCompile("verif_c08")},
 			{NameFilter: regexp.MustCompile("^" + st.name + "$")},
+			{NameFilter: regexp.MustCompile(`\A` + st.name + `\z`)},
+			{NameFilter: regexp.MustCompile("^(?:" + st.name + ")$")},
+			{NameFilter: regexp.MustCompile(st.name)},
+			{NameFilter: regexp.MustCompile("^" + st.name[:len(st.name)-1] + "$")},
+			{NameFilter: regexp.MustCompile("^" + st.name[2:] + "$")},
+			{NameFilter: regexp.MustCompile("^e_verif_c08_nest$")},
+			{NameFilter: regexp.MustCompile("e_verif_c08_nest")},
 			{NameFilter: regexpAll},
 			{IncludeSources: lint.SourceList{st.src}, ExcludeNames: []string{st.name}},
 			{IncludeSources: lint.SourceList{lint.LintSource("Partner_Policy")}},
